@@ -1,7 +1,13 @@
 /-
   C06 — cprNL equals the DO-260B longitude-zone function.
+
+  `nlStair x` is the DO-260B staircase over the committed table of transition latitudes
+  (`Spec.nlTable`, rows `(n, lo, hi)` with `lo ≤ θ_n·10¹² ≤ hi`): the largest `n` with
+  `x·10¹² < lo_n`, 2 up to and including 87°, 1 beyond.  `cprNL` is `py_common.cprNL` as
+  coded, with its three `isclose`/pole short-cuts.  Proofs: `PyModeS/Proofs/CPR/NL.lean`.
 -/
 import PyModeS.Model.CPR
+import PyModeS.Proofs.CPR.NL
 namespace PyModeS.C06
 
 /-- the committed table of transition latitudes is strictly increasing from θ_59 to θ_2 = 87°,
@@ -13,5 +19,74 @@ theorem nlTable_wellformed :
       match Spec.nlTable[i]?, Spec.nlTable[i + 1]? with
       | some a, some b => decide (a.2.2 < b.2.1)
       | _, _ => false) = true := by decide +kernel
+
+/-! ### staircase laws (every rational `x`; `0 ≤ x` is not even needed) -/
+
+theorem nlStair_range (x : ℚ) : 1 ≤ nlStair x ∧ nlStair x ≤ 59 := CPR.nlStair_range x
+
+theorem nlStair_antitone (x y : ℚ) (h : x ≤ y) : nlStair y ≤ nlStair x :=
+  CPR.nlStair_antitone x y h
+
+theorem nlStair_zero : nlStair 0 = 59 := CPR.nlStair_59 0 (by norm_num)
+
+/-- below the first transition latitude (lower end 10.470471299968°) the value is 59 -/
+theorem nlStair_59 (x : ℚ) (h : x * 10 ^ 12 < 10470471299968) : nlStair x = 59 :=
+  CPR.nlStair_59 x (by norm_num at h ⊢; exact h)
+
+/-- row by row: for consecutive table rows `a = (n+1, θ_{n+1}, _)`, `b = (n, θ_n, _)`,
+    `θ_{n+1} ≤ x < θ_n` (lower ends, units of 1e-12°) gives `nlStair x = n` -/
+theorem nlStair_row (x : ℚ) (i : ℕ) (a b : ℕ × ℕ × ℕ)
+    (ha : Spec.nlTable[i]? = some a) (hb : Spec.nlTable[i + 1]? = some b)
+    (h1 : (a.2.1 : ℚ) ≤ x * 10 ^ 12) (h2 : x * 10 ^ 12 < (b.2.1 : ℚ)) :
+    nlStair x = b.1 :=
+  CPR.nlStair_row x i a b ha hb (by norm_num at h1 ⊢; exact h1) (by norm_num at h2 ⊢; exact h2)
+
+/-- from θ₃ (lower end 86.535369975121°; in particular from 86.54°) up to and including 87°: 2 -/
+theorem nlStair_87 (x : ℚ) (h1 : (86535369975121 : ℚ) / 10 ^ 12 ≤ x) (h2 : x ≤ 87) :
+    nlStair x = 2 := by
+  apply CPR.nlStair_two x _ h2
+  rw [div_le_iff₀ (by norm_num)] at h1
+  norm_num at h1 ⊢; exact h1
+
+theorem nlStair_87' (x : ℚ) (h1 : (8654 : ℚ) / 100 ≤ x) (h2 : x ≤ 87) : nlStair x = 2 :=
+  nlStair_87 x (by norm_num at h1 ⊢; linarith) h2
+
+theorem nlStair_gt_87 (x : ℚ) (h : 87 < x) : nlStair x = 1 := CPR.nlStair_one x h
+
+theorem nlStair_eq_one_iff (x : ℚ) : nlStair x = 1 ↔ 87 < x := CPR.nlStair_eq_one_iff x
+
+/-! ### `cprNL` (the code, with its `isclose` short-cuts) is the staircase of `|lat|` -/
+
+/-- the model's absolute value is the absolute value -/
+theorem rabs_eq_abs (x : ℚ) : rabs x = |x| := CPR.rabs_eq_abs x
+
+theorem cprNL_eq_stair (lat : ℚ) : cprNL lat = nlStair (rabs lat) := CPR.cprNL_eq_stair lat
+
+theorem cprNL_eq_stair_abs (lat : ℚ) : cprNL lat = nlStair |lat| := by
+  rw [← rabs_eq_abs]; exact cprNL_eq_stair lat
+
+theorem cprNL_even (lat : ℚ) : cprNL (-lat) = cprNL lat := by
+  rw [cprNL_eq_stair_abs, cprNL_eq_stair_abs, abs_neg]
+
+theorem cprNL_range (lat : ℚ) : 1 ≤ cprNL lat ∧ cprNL lat ≤ 59 := by
+  rw [cprNL_eq_stair]; exact nlStair_range _
+
+theorem cprNL_antitone (a b : ℚ) (h : |a| ≤ |b|) : cprNL b ≤ cprNL a := by
+  rw [cprNL_eq_stair_abs, cprNL_eq_stair_abs]; exact nlStair_antitone _ _ h
+
+theorem cprNL_eq_one_iff (lat : ℚ) : cprNL lat = 1 ↔ 87 < |lat| := by
+  rw [cprNL_eq_stair_abs]; exact nlStair_eq_one_iff _
+
+theorem cprNL_zero : cprNL 0 = 59 := by
+  rw [cprNL_eq_stair_abs, abs_zero]; exact nlStair_zero
+
+/-! ### concrete values -/
+
+example : cprNL (522572 / 10000) = 36 ∧ cprNL (-522572 / 10000) = 36 := by decide +kernel
+example : cprNL 87 = 2 ∧ cprNL (870000001 / 10000000) = 1 ∧ cprNL (-90) = 1 := by decide +kernel
+/-- `nlStair_row` at row 22/23 (θ₃₇ ≤ 52.2572° < θ₃₆) -/
+example : nlStair (522572 / 10000) = 36 :=
+  nlStair_row _ 22 (37, 51893424691687, 51893424691688) (36, 53095161527960, 53095161527961)
+    (by decide +kernel) (by decide +kernel) (by norm_num) (by norm_num)
 
 end PyModeS.C06
